@@ -307,9 +307,12 @@ class ConnSettings:
             return None
         got = {}
         for F in self.fields:
-            t = absx.field_term(v, F) if v[0] == 'struct' else ('field', v, F)
-            if t[0] == 'field' and t in o.st.heap:
-                t = o.st.heap[t]              # (a store to self.F made before self became the base of the returned value; a seeded state field)
+            if ('field', v, F) in o.st.heap:
+                t = o.st.heap[('field', v, F)]      # (a store to the field made after the value was put together: `let mut s = Self { .. }; s.f = x; s`)
+            else:
+                t = absx.field_term(v, F) if v[0] == 'struct' else ('field', v, F)
+                if t[0] == 'field' and t in o.st.heap:
+                    t = o.st.heap[t]              # (a store to self.F made before self became the base of the returned value; a seeded state field)
             got[F] = self.copied(t) if self.closed(self.copied(t)) else t
         return got
 
@@ -385,15 +388,17 @@ class ConnSettings:
         self.trans = []          # {'node': i, 'setter': p, 'arg': True|False|None, 'fields': {field: term}, 'state': {..}, 'to': j}
         self.unreadable = {}
         index = {}
-        def node(state, req, chain):
+        def node(state, req, chain, origin):
             k = (self.key(state), tuple(sorted(req.items())))
             if k not in index:
                 if len(self.nodes) >= self.MAX_NODES:
                     raise AnchorMissing('the settings struct has more than %d reachable scalar states' % self.MAX_NODES)
                 index[k] = len(self.nodes)
-                self.nodes.append({'state': state, 'req': req, 'chain': chain})
+                self.nodes.append({'state': state, 'req': req, 'chain': chain, 'origin': origin})
             return index[k]
-        for p in self.constructors():
+        def origin_of(p):
+            return 'LdapConnSettings::new()' if p == self.ST + '::new' else 'LdapConnSettings::default()' if p.endswith(' as core::default::Default>::default') else p.replace(self.ST, 'LdapConnSettings') + '(..)'
+        for p in sorted(self.constructors(), key=lambda p: (p != self.ST + '::new', p)):
             sparams, vals = self.built(p)
             if sparams:
                 continue         # a copy (Clone) or a conversion of another settings value: not a starting point
@@ -406,7 +411,7 @@ class ConnSettings:
                 st = {F: got[F] for F in self.S}
                 if st not in [s for _p, s in self.initial]:
                     self.initial.append((p, st))
-                node(st, {r: False for r in self.setter if r in self.BOOL}, ())
+                node(st, {r: False for r in self.setter if r in self.BOOL}, (), origin_of(p))
         if not self.initial:
             raise AnchorMissing('no constructor of the connection settings (new / Default) could be evaluated')
         i = 0
@@ -433,7 +438,7 @@ class ConnSettings:
                         if role in self.BOOL and val is not None:
                             req[role] = val
                         call = '%s(%s)' % (p.rsplit('::', 1)[-1], '..' if val is None else 'true' if val else 'false')
-                        j = node(st, req, n['chain'] + (call,))
+                        j = node(st, req, n['chain'] + (call,), n['origin'])
                         self.trans.append({'node': i, 'setter': p, 'arg': val, 'argname': arg, 'fields': got, 'state': st, 'to': j, 'call': call})
             i += 1
 
@@ -472,7 +477,8 @@ class ConnSettings:
 
     def where(self, n):
         """the shortest chain of builder calls that reaches node n, as the caller would write it"""
-        return 'LdapConnSettings::new()' + ''.join('.' + c for c in (n['chain'] if isinstance(n, dict) else self.nodes[n]['chain']))
+        n = n if isinstance(n, dict) else self.nodes[n]
+        return n['origin'] + ''.join('.' + c for c in n['chain'])
 
     # ------------------------------------------------------------------ readers
     def read(self, role, state):
